@@ -23,10 +23,10 @@ RULE = ("read side: NULL text from %d spellings/values (negative, positive, inte
         % len(NULLS))
 ASSUMPTIONS = [
     "NULL texts are plain decimal literals; the cells of a text column are non-numeric tokens, the NULL in its canonical and in the file's own spelling, and codes with leading zeros",
-    "write side: no finite sample prints as a token numerically equal to NULL",
+    "write side: no finite sample is *equal* to NULL (that is what NULL means); samples next to NULL, closer than the format resolves, are written in a quarter of the cases",
 ]
 REQUIRED = ["read_cases", "cells_compared", "null_equal_cells_in_index", "near_null_cells", "null_equal_cells_other_spelling",
-            "policy_none_cases", "text_column_cases", "write_nan_tokens_checked", "roundtrip_masks_compared", "wrapped_cases", "read_cases_with_surplus_columns", "second_writes_after_in_place_edits", "writes_with_a_text_curve_present"]
+            "policy_none_cases", "text_column_cases", "write_nan_tokens_checked", "roundtrip_masks_compared", "wrapped_cases", "read_cases_with_surplus_columns", "second_writes_after_in_place_edits", "writes_with_a_text_curve_present", "written_samples_next_to_null"]
 SOFT_DEADLINE = {"quick": 90, "thorough": 1200}
 LEVEL_TEXT = "Exploration with a cell-level 'if and only if' model of the NaN mask on both directions (read, write->read)."
 LEVEL_NOTE = "Trusts Python float() as the numeric-equality reference for spellings; NULL texts outside the listed set are not covered."
@@ -271,17 +271,27 @@ def run_write(case, ctx):
     las = lasio.LASFile()
     las.well["NULL"].value = nv
     data = [[100.0 + 0.5 * i for i in range(r)]]
+    near_written = [0]
     for j in range(1, c):
         col = []
         for i in range(r):
             if rng.random() < 0.35:
                 col.append(float("nan"))
+            elif case["seed"] % 4 == 2 and rng.random() < 0.3:
+                # a real reading next to NULL, closer than the format resolves (it must not be written as the NULL marker)
+                x = float(nv) + rng.choice([1, -1]) * rng.choice([1e-6, 3e-7, 4e-9]) * max(1.0, abs(float(nv)))
+                if x == float(nv):
+                    x = float(np.nextafter(float(nv), 1e300))
+                col.append(x)
+                near_written[0] += 1
             else:
                 x = round(rng.uniform(-2000, 2000), 3)
                 while float(fmt % x) == float(nv):
                     x += 1.5
                 col.append(x)
         data.append(col)
+    if near_written[0]:
+        ctx.count("written_samples_next_to_null", near_written[0])
     for j in range(c):
         las.append_curve("DEPT" if j == 0 else "C%d" % j, np.array(data[j]), unit="m")
     kw = {"wrap": case["wrap"], "fmt": fmt}
